@@ -1,4 +1,5 @@
 import TSSVerif.Driver.Wire
+import TSSVerif.Driver.Rbc
 /-!
 Line-protocol driver: one operation per input line, one answer per output line. Imports `Model/`
 and `Driver/` only (core Lean), so it links as a native executable; the definitions it runs are the
@@ -7,12 +8,19 @@ ones the theorems in `Props/` are about.
 open TSSVerif.Driver
 
 structure DState where
-  dummy : Unit := ()
+  rbc : Nat → Option RbcD := fun _ => none
 
 def step (st : DState) (line : String) : DState × String :=
   let toks := (line.splitOn " ").filter (· ≠ "")
   match toks with
   | "wire" :: rest => (st, (wireOp rest).getD "bad-op")
+  | "rbc" :: inst :: rest =>
+    match inst.toNat? with
+    | none => (st, "bad-op")
+    | some i =>
+      match rbcOp (st.rbc i) rest with
+      | some (d, o) => ({ st with rbc := fun j => if j = i then d else st.rbc j }, o)
+      | none => (st, "bad-op")
   | _ => (st, "bad-op")
 
 partial def loop (h : IO.FS.Stream) (out : IO.FS.Stream) (st : DState) : IO Unit := do
